@@ -1,0 +1,11 @@
+//go:build verif
+
+package mbapp
+
+import "context"
+
+// VerifHandleMessage hands one inner-swarm message to the swarm's receive path (handleMessage)
+// synchronously, for the verification harness. It is only compiled with the verif build tag.
+func (s *Swarm[A, Pub]) VerifHandleMessage(ctx context.Context, src, dst A, data []byte) error {
+	return s.handleMessage(ctx, src, dst, data)
+}
